@@ -27,7 +27,7 @@ RULES = {
     "R-err": "error-value construction mapped to the env's abstract error constructor (payload formatting dropped)",
     "R-path": "path/generic syntax adapted (turbofish, crate:: prefixes, trait-qualified calls) with no change of callee",
     "R-map": "`r.map(C)` / `r.map(|v| E)` on a Result desugared to `match r { Ok(v) => Ok(C(v)), Err(e) => Err(e) }` (the definition of Result::map); where the mapped callee is a gc allocation or trait-object call it is named by the env helper carrying its assumed contract",
-    "R-arm": "a match arm of the interpreter loop wrapped as a function (signature from spec.toml: pattern variables become parameters, `self` becomes the context parameter); only the arm's own statements are verified, not the dispatch",
+    "R-arm": "a match arm of the interpreter loop wrapped as a function (signature from spec.toml: pattern variables become parameters, `self` becomes the context parameter); only the arm's own statements are verified, not the dispatch -- except for arm GROUPS (`group = <scrutinee>`), where every arm whose header matches is taken in source order and re-assembled as a `match` on the scrutinee parameter, so guards and arm order are verified too",
     "R-block": "one block expression of a function (located by its header) wrapped as a function whose parameters are the block's free variables; only that block's statements are verified",
     "R-head": "the statements of a function from its beginning up to a located statement (e.g. the argument validation in front of an allocation), wrapped as a function that returns a marker when the end of the head is reached",
     "R-tail": "the statements of a function from a located statement to the end of its body, wrapped as a function whose parameters are the live variables at that point",
@@ -85,13 +85,27 @@ def _extract_arm(arm):
             depth += 1
         elif ch in ")]}":
             depth -= 1
-    hit = None
-    for m in re.finditer(arm["pattern"], region_m):
-        if depth_at[m.start()] == 0:
-            hit = m
-            break
-    if hit is None:
+    hits = [m for m in re.finditer(arm["pattern"], region_m) if depth_at[m.start()] == 0]
+    if not hits:
         raise Broken("arm %r not found in %s::%s" % (arm["pattern"], arm["file"], arm["fn"]))
+    if arm.get("group"):
+        # every arm whose header matches is taken, in source order, and re-assembled into a `match` on the scrutinee
+        # parameter: guards and the order of the arms are then part of the verified text
+        parts = []
+        for hit in hits:
+            i = hit.end()
+            while region_m[i].isspace():
+                i += 1
+            if region_m[i] == "{":
+                j = rustscan.match_close(region_m, i) + 1
+            else:
+                j = i
+                while j < len(region_m) and not (region_m[j] == "," and depth_at[j] == 0):
+                    j += 1
+            parts.append(src[ob + 1 + hit.start(): ob + 1 + j])
+        body = "{ match %s {\n%s,\n_ => rt_panic(),\n} }" % (arm["group"], ",\n".join(parts))
+        return body, src.count("\n", 0, ob + 1 + hits[0].start()) + 1
+    hit = hits[0]
     i = hit.end()
     while region_m[i].isspace():
         i += 1
